@@ -825,6 +825,13 @@ func (fc *FnCtx) havocForLoop(st *State, ms *modSet, entry *State) {
 }
 
 func (fc *FnCtx) ghostMayChange(name string) bool {
+	for _, l := range fc.contract.Loops {
+		for _, ef := range l.Iter {
+			if ef.Target == name {
+				return true
+			}
+		}
+	}
 	for _, oc := range fc.contract.OnCalls {
 		for _, ef := range oc.Effects {
 			if ef.Target == name {
@@ -962,11 +969,17 @@ func (fc *FnCtx) loopInvariants(st *State, li loopInfo, at ast.Node, phase strin
 		return
 	}
 	for k, c := range li.spec.Invariants {
-		if !fc.clauseActive(c) {
-			continue
-		}
 		env := &specEnv{fc: fc, st: st, old: fc.entry, at: at.Pos(), scopeNode: at}
 		t := fc.specBool(st, c.Expr, env)
+		if !fc.clauseActive(c) {
+			// an invariant owned by another property of this function is relied upon at the loop head only
+			// (it is proved in that property's own run); it is never assumed in the middle of a path
+			if !assert {
+				fc.assume(st, t)
+				fc.relied[clauseOwners(fc, c)] = true
+			}
+			continue
+		}
 		if assert {
 			fc.curEnv = env
 			fc.assert(st, "invariant-"+phase, clauseName(fmt.Sprintf("loop%d.inv", li.ord), c, k)+"."+phase, t, at.Pos(), c.Src)
@@ -1028,6 +1041,7 @@ func (fc *FnCtx) loopCore(st *State, node ast.Node, label string, cond ast.Expr,
 		if pre != nil {
 			bodySt = pre(bodySt)
 		}
+		fc.iterResets(bodySt, li, node)
 		fc.canary(bodySt, fmt.Sprintf("canary.loop%d.body", li.ord), node.Pos())
 		if li.spec != nil && li.spec.Decreases != nil && fc.terminationActive() {
 			v0 = fc.define(asInt(fc.specVal(bodySt, li.spec.Decreases, &specEnv{fc: fc, st: bodySt, old: fc.entry, at: node.Pos(), scopeNode: node})), "variant")
@@ -1042,6 +1056,7 @@ func (fc *FnCtx) loopCore(st *State, node ast.Node, label string, cond ast.Expr,
 			back = fc.exec(back, post, "")
 		}
 		if back != nil {
+			fc.loopAtEnd(back, li, node)
 			fc.loopInvariants(back, li, node, "preserved", true)
 			if li.spec != nil && li.spec.Decreases != nil && fc.terminationActive() {
 				v1 := asInt(fc.specVal(back, li.spec.Decreases, &specEnv{fc: fc, st: back, old: fc.entry, at: node.Pos(), scopeNode: node}))
@@ -1138,6 +1153,8 @@ func (fc *FnCtx) execRange(st *State, x *ast.RangeStmt, label string) *State {
 // rangeLoop: for idx := 0; idx < n; idx++ { pre; body }
 func (fc *FnCtx) rangeLoop(st *State, x *ast.RangeStmt, label string, idxObj, keyObj *types.Var, cond func(*State) T, n T, pre func(*State) *State) *State {
 	li := fc.loopSpec(x)
+	fc.rangeIdx = append(fc.rangeIdx, idxObj)
+	defer func() { fc.rangeIdx = fc.rangeIdx[:len(fc.rangeIdx)-1] }()
 	if keyObj != nil {
 		st.vars[keyObj] = VInt{mkInt(0)} // in invariants the key names the index of the next iteration
 	}
@@ -1166,6 +1183,7 @@ func (fc *FnCtx) rangeLoop(st *State, x *ast.RangeStmt, label string, idxObj, ke
 	bodySt, exitSt := fc.split(head, cond(head))
 	if bodySt != nil {
 		bodySt = pre(bodySt)
+		fc.iterResets(bodySt, li, x)
 		fc.canary(bodySt, fmt.Sprintf("canary.loop%d.body", li.ord), x.Pos())
 		fc.inLoopBody++
 		end := fc.execBlock(bodySt, x.Body.List)
@@ -1177,6 +1195,7 @@ func (fc *FnCtx) rangeLoop(st *State, x *ast.RangeStmt, label string, idxObj, ke
 				back.vars[keyObj] = back.vars[idxObj]
 			}
 			// key variable visible in invariants follows the index at the head
+			fc.loopAtEnd(back, li, x)
 			fc.loopInvariants(back, li, x, "preserved", true)
 		}
 	}
@@ -1208,11 +1227,14 @@ func (fc *FnCtx) rangeOpaque(st *State, x *ast.RangeStmt, label string, keyObj, 
 	if valObj != nil {
 		bodySt.vars[valObj] = fc.freshVal(valObj.Type(), valObj.Name())
 	}
+	fc.iterResets(bodySt, li, x)
+	fc.canary(bodySt, fmt.Sprintf("canary.loop%d.body", li.ord), x.Pos())
 	fc.inLoopBody++
 	end := fc.execBlock(bodySt, x.Body.List)
 	fc.inLoopBody--
 	back := fc.mergeStates(append([]*State{end}, jt.continues...))
 	if back != nil {
+		fc.loopAtEnd(back, li, x)
 		fc.loopInvariants(back, li, x, "preserved", true)
 	}
 	fc.breakStk = fc.breakStk[:len(fc.breakStk)-1]
